@@ -8,10 +8,12 @@
    the active FSM state, in program order, over the next-state record (`goto` = transition_to_state: clears
    the time-in-state counter and request_hot_reset, applies the tasks_on_entry of the target and sets m.next).
 
-   WARM RESET.  The model gives in_usb_reset PRIORITY over every other transition of every state (it is the
-   last statement of every state).  /repo's code calls handle_warm_resets() FIRST in each state, so that any
-   later transition of the same cycle overrides it (and it does not call it at all in Rx.Detect.Active,
-   Rx.Detect.Quiet and Polling.LFPS); see findings/C41-*.
+   WARM RESET.  The model gives in_usb_reset PRIORITY over every other transition of every state (`warm` is the
+   last statement of every state: next state Rx.Detect.Reset, counter and request_hot_reset cleared).  /repo's
+   code calls handle_warm_resets() FIRST in each state, so that any later transition of the same cycle overrides
+   it, and does not call it at all in Rx.Detect.Active, Rx.Detect.Quiet and Polling.LFPS: the unchanged tree
+   violates C41 (findings/C41-*.json); the model corresponds to the code with
+   findings/C41-warm-reset-priority.diff applied (reset handled once, after the FSM).
 
    Input word:  [0] in_usb_reset [1] trigger_link_recovery [2] phy_ready [3] disable_scrambling
      [4] link_partner_detected [5] no_link_partner_detected [6] lfps_polling_detected [7] ts1_detected
@@ -392,10 +394,13 @@ Definition lt_alpha_core : list N :=
   [0] ++ map ev [0;1;2;4;5;6;7;9;13;14]
   ++ map (fun e => e + ev 0) (map ev [1;2;4;6;7;13;14])
   ++ flat_map (fun n => [sentw n; sentw n + ev 6; sentw n + ev 7]) [13; 16; 20].
-(* the optional paths: hot reset, loopback, scrambling requests, inverted polarity *)
-Definition lt_alpha_opt : list N :=
-  [0; ev 0; ev 2; ev 4; sentw 16 + ev 6; sentw 20; ev 13; ev 7; ev 9; ev 14; ev 10; ev 11; ev 12; ev 8;
-   ev 3 + ev 13; ev 3 + ev 7; ev 13 + ev 10; ev 13 + ev 9; ev 1; ev 14 + ev 0; ev 13 + ev 0].
+(* the optional paths, in two alphabets: hot reset + loopback; scrambling requests + inverted polarity + recovery *)
+Definition lt_alpha_opt_a : list N :=
+  [0; ev 0; ev 2; ev 4; sentw 16 + ev 6; sentw 20; ev 13; ev 7; ev 9; ev 14; ev 10; ev 11; ev 13 + ev 10; ev 13 + ev 9;
+   ev 14 + ev 0].
+Definition lt_alpha_opt_b : list N :=
+  [0; ev 0; ev 2; ev 4; sentw 16 + ev 6; sentw 20; ev 13; ev 7; ev 9; ev 14; ev 12; ev 8; ev 3 + ev 13; ev 3 + ev 7; ev 1;
+   ev 13 + ev 0].
 (* a small alphabet for the quick tier: the training path, recovery, and a warm reset alone / coinciding with
    the events that the unpatched code lets override it *)
 Definition lt_alpha_small : list N :=
